@@ -73,6 +73,12 @@ func (zo *Object) SetProperty(name string, value r.Element) error {
 	return zerr.PropertyNotFound(name)
 }
 
+// HasMethod - does the object's class define this method?
+func (zo *Object) HasMethod(name string) bool {
+	_, ok := zo.model.FindMethod(name)
+	return ok
+}
+
 // ExecMethod -
 func (zo *Object) ExecMethod(name string, values []r.Element) (r.Element, error) {
 	if method, ok := zo.model.FindMethod(name); ok {
